@@ -312,6 +312,29 @@ def build_item(spec: dict, sections: dict, substs: list, defines: set, log: list
             edits.append(Edit(off, off, sections[('tail',)].rstrip() + '\n', 'tail'))
         lo_t, hi_t = it.open_tok, it.close_tok
         _rewrite_r2_r4(it, rewrites, edits, applied, relfile, lo_t, hi_t)
+        # ---- R16: a match arm outside the contract's precondition is replaced by an unreachable marker
+        for pat in sections.get(('droparm',), []):
+            ptoks = [t.text for t in rsx.tokenize(pat)]
+            hit = None
+            for j in range(lo_t, hi_t - len(ptoks)):
+                if [t.text for t in toks[j:j + len(ptoks)]] == ptoks and toks[j + len(ptoks)].text == '=>':
+                    hit = j
+                    break
+            if hit is None:
+                raise LostAnchor(f'{where}: match arm `{pat} =>` not found')
+            b = hit + len(ptoks) + 1
+            if toks[b].text == '{':
+                e = rsx.match_close(toks, b)
+            else:
+                e = b
+                while toks[e + 1].text != ',' and e + 1 < hi_t:
+                    if toks[e + 1].text in ('(', '[', '{'):
+                        e = rsx.match_close(toks, e + 1)
+                    else:
+                        e += 1
+            edits.append(Edit(toks[b].start, toks[e].end, '{ __arm_outside_contract() }', 'R16'))
+            applied.append(f'R16 {relfile}:{it.line_of(toks[hit].start)}: body of match arm `{pat} =>` ({it.line_of(toks[e].end) - it.line_of(toks[b].start) + 1} lines) replaced by an '
+                           f'unreachable marker (`requires false`); the contract excludes that case')
         if any(k[0] == 'closure' for k in sections) and not twin:
             head = _hoist_closures(it, sections, edits, applied, relfile) + head
         elif any(k[0] == 'closure' for k in sections):
@@ -351,6 +374,9 @@ def build_item(spec: dict, sections: dict, substs: list, defines: set, log: list
                 j += len(pat)
             else:
                 j += 1
+    # an edit swallowed by a larger one (e.g. R15 inside an arm dropped by R16) is discarded
+    edits = [e for e in edits if not any(f is not e and f.start <= e.start and e.end <= f.end and (f.end - f.start) > (e.end - e.start)
+                                         for f in edits)]
     text, origins = rsx.apply_edits(src, it.start, it.end, edits)
     if head:
         text = head + text
@@ -419,10 +445,34 @@ def _hoist_closures(it, sections, edits, applied, relfile):
     return hoisted
 
 
+def _rewrite_r15(it, edits, applied, relfile, lo_t, hi_t):
+    """R15: diagnostic text construction — `format!(..)` and `RECV.to_string()` -> `__format_opaque()` (an
+    arbitrary String). Only the text of error messages is lost; receivers are plain places (no effects)."""
+    toks, src = it.toks, it.src
+    j = lo_t
+    while j < hi_t:
+        if toks[j].kind == 'ident' and toks[j].text == 'format' and toks[j + 1].text == '!' and toks[j + 2].text == '(':
+            c = rsx.match_close(toks, j + 2)
+            edits.append(Edit(toks[j].start, toks[c].end, '__format_opaque()', 'R15'))
+            applied.append(f'R15 {relfile}:{it.line_of(toks[j].start)}: `format!(..)` -> `__format_opaque()`')
+            j = c + 1
+            continue
+        if toks[j].text == '.' and toks[j + 1].text == 'to_string' and toks[j + 2].text == '(' and toks[j + 3].text == ')':
+            r0 = rsx.postfix_chain_start(toks, j, lo_t)
+            if not any(e.start <= toks[r0].start < e.end for e in edits):
+                edits.append(Edit(toks[r0].start, toks[j + 3].end, '__format_opaque()', 'R15'))
+                applied.append(f'R15 {relfile}:{it.line_of(toks[j].start)}: `{src[toks[r0].start:toks[j + 3].end]}` -> `__format_opaque()`')
+            j += 4
+            continue
+        j += 1
+
+
 def _rewrite_r2_r4(it, rewrites, edits, applied, relfile, lo_t, hi_t, r2_to='assert'):
     toks, src = it.toks, it.src
     if 'R12' in rewrites:
         _rewrite_r12(it, rewrites, edits, applied, relfile, lo_t, hi_t)
+    if 'R15' in rewrites:
+        _rewrite_r15(it, edits, applied, relfile, lo_t, hi_t)
     if 'R2' in rewrites or 'R2K' in rewrites:
         for j in range(lo_t, hi_t):
             if toks[j].kind == 'ident' and toks[j].text == 'debug_assert' and toks[j + 1].text == '!':
@@ -598,6 +648,11 @@ def assemble(template: str, defines: set | None = None) -> Assembled:
                 m = re.match(r'//@(loop|loop_body|before_loop|after_loop)\s+(\d+)\s*$', s2)
                 if m:
                     cur = (m.group(1), int(m.group(2))); sections[cur] = ''
+                    continue
+                m = re.match(r'//@droparm\s+(.+?)\s*$', s2)
+                if m:
+                    sections.setdefault(('droparm',), [])
+                    sections[('droparm',)].append(m.group(1))
                     continue
                 m = re.match(r'//@closure\s+(\w+)\s+(\S+)\s*$', s2)
                 if m:
